@@ -91,13 +91,13 @@ def build_harness(w):
     return out
 
 
-def run_driver(w, binary, driver, infile, outfile, timeout=3600, extra_env=None):
+def run_driver(w, binary, driver, infile, outfile, timeout=3600, extra_env=None, cwd=None):
     env = dict(os.environ, VERIF_DRIVER=driver, VERIF_IN=infile, VERIF_OUT=outfile, VERIF_SEED=str(w.seed))
     if extra_env:
         env.update(extra_env)
     t = time.time()
     try:
-        p = subprocess.run([binary, "-test.run", "^TestDriver$", "-test.timeout", "0"], cwd=w.dir, env=env,
+        p = subprocess.run([binary, "-test.run", "^TestDriver$", "-test.timeout", "0"], cwd=cwd or w.dir, env=env,
                            stdout=subprocess.PIPE, stderr=subprocess.STDOUT, text=True, timeout=timeout)
     except subprocess.TimeoutExpired:
         raise Inconclusive("driver %s timed out" % driver)
